@@ -696,7 +696,10 @@ let suite_stage t v =
                       if M.ahas p.M.p_name !st.M.parts || M.ahas p.M.p_name !st.M.fulls || M.ahas p.M.p_name !st.M.waits
                       then reannounce := true end);
            if not (List.mem hs (Hashtbl.find_all announced ns)) then Hashtbl.add announced ns hs;
-           Hashtbl.replace ann_prev (ns, hs) (string_of_name p.M.p_prev);
+           (* the predecessor that counts for the order oracle is the one announced while the version was still
+              on its way: what a late duplicate says after the version has been put away orders nothing *)
+           if not (List.exists (fun r -> M.name_eqb r.M.l_name p.M.p_name && M.name_eqb r.M.l_hash p.M.p_hash) !st.M.rlog) then
+             Hashtbl.replace ann_prev (ns, hs) (string_of_name p.M.p_prev);
            (* Receive first has the receive log read back to the file's time (clamped as in Received()) *)
            let monthago = M.Z.sub now (z_of_int (30 * 86400)) in
            let whn = if M.Z.ltb now p.M.p_time then now else if M.Z.ltb p.M.p_time monthago then monthago else p.M.p_time in
@@ -1030,6 +1033,8 @@ let suite_e2e t v =
   if fi "source_lost" > 0 then oracle v "source_gone_receiver_lacks_it" false;
   if fi "released_without_positive_answer" > 0 then oracle v "released_without_positive_answer" false;
   if fi "confirmed_left_unrecorded" > 0 then oracle v "confirmed_left_unrecorded_at_exit" false;
+  (* C19: the tag's delete-delay is applied to the files of that tag *)
+  if fi "early_delete" > 0 then oracle v "deleted_before_delete_delay" false;
   (* C08 *)
   if fi "sent_before_all_acked" > 0 then oracle v "logged_sent_before_all_bytes_acknowledged" false;
   (* ... and no part is skipped: what a recovery answer counts as held is on the receiver's record *)
@@ -1052,6 +1057,8 @@ let suite_e2e t v =
     if not finished then oracle v "stop_now_did_not_terminate" false
     else if fi "stop_ms" > 4000 then oracle v "stop_now_not_prompt" false
   end;
+  if stop = "graceful" && finished && fi "delivered_left_unpolled" > 0 && p "faults" = "0" then
+    oracle v "graceful_stop_left_delivered_files_unpolled" false;
   if stop = "graceful" then begin
     if not finished then oracle v "graceful_stop_did_not_terminate" vanished
     else if not all_delivered && p "faults" = "0" && p "pollfaults" = "0" then
